@@ -229,6 +229,9 @@ def run(ctx):
                                   'afterwards' % kind.replace('_', ' '), {'size': len(payload), 'existing': kind}, {'fn': 'copy_file', 'what': 'roundtrip', 'existing': kind})
     finally:
         shutil.rmtree(tmp, ignore_errors=True)
+    # ---- executable tie of the regenerated TENSOR PROGRAMS of save_image / load_image (whole value pipeline, both APIs)
+    from .genimagecodec import check_generated_imagecodec
+    check_generated_imagecodec(ctx)
 
 
 def ply_points_check(pts, fn):
